@@ -1,7 +1,7 @@
 (* wire glue for engine 109 (row codec, property C09) *)
 (* WIRE engine=109 fn=dispatch_c09 *)
 From Coq Require Import List NArith Bool.
-From RPFT Require Import Base.Sexp Base.PyStr Base.Result Gen.Tables Cell.Cell Row.Ty Row.Layout Row.RowParse Row.RowUnparse Row.FlowRow.
+From RPFT Require Import Base.Sexp Base.PyStr Base.Result Gen.Tables Cell.Cell Row.Ty Row.Layout Row.RowParse Row.RowUnparse Row.FlowRow Row.RowSession.
 Import ListNotations.
 Local Open Scope N_scope.
 
@@ -24,6 +24,18 @@ Definition dispatch_c09 (fn : N) (args : list sexp) : sexp :=
     match dec_str h, dec_cells c with
     | Some h', Some c' => enc_res enc_str (ctx_h2f flow_ctx c' h')
     | _, _ => s_badinput
+    end
+  (* 4: the rows of a sheet, in order, through ONE RowParser object (Row/RowSession.rp_run) *)
+  | 4, [m; L rows] =>
+    match dec_rowmodel m, dec_list_aux dec_cells rows with
+    | Some m', Some rs => L (map (enc_res enc_value) (snd (rp_run (rp_init m') rs)))
+    | _, _ => s_badinput
+    end
+  (* 5: the same for the regenerated flow row model *)
+  | 5, [L rows] =>
+    match dec_list_aux dec_cells rows with
+    | Some rs => L (map (enc_res enc_value) (snd (rp_run (rp_init flow_row_model) rs)))
+    | None => s_badinput
     end
   | _, _ => s_badinput
   end.
